@@ -367,8 +367,7 @@ class TEBDEngine(TimeEvolutionAlgorithm):
         for U_idx_dt, odd in self.suzuki_trotter_decomposition(order, N_steps):
             trunc_err += self.evolve_step(U_idx_dt, odd)
         self.evolved_time = self.evolved_time + N_steps * self._U_param['tau']
-        self.trunc_err = self.trunc_err + trunc_err  # not += : make a copy!
-        # (this is done to avoid problems of users storing self.trunc_err after each `evolve`)
+        # note: `run_evolution` adds the returned `trunc_err` to `self.trunc_err`
         return trunc_err
 
     def evolve_step(self, U_idx_dt, odd):
@@ -919,8 +918,7 @@ class RandomUnitaryEvolution(TEBDEngine):
             for odd in [1, 0]:
                 trunc_err += self.evolve_step(0, odd)
         self.evolved_time = self.evolved_time + N_steps * dt
-        self.trunc_err = self.trunc_err + trunc_err  # not += : make a copy!
-        # (this is done to avoid problems of users storing self.trunc_err after each `update`)
+        # note: `run_evolution` adds the returned `trunc_err` to `self.trunc_err`
         return trunc_err
 
 
